@@ -409,7 +409,8 @@ TIES = {
     'C01': _PGM, 'C03': _PGM, 'C12': _PGM,
     'C13': ('SrcLp.v', ['PyPrelude', 'PgmState', 'PureState', 'SrcLp', 'EquivLp'], 'EquivLp'),
     'C08': [('SrcNw.v', ['PyPrelude', 'PgmState', 'PureState', 'SrcNw', 'EquivNw'], 'EquivNw'),
-            ('SrcWr.v', ['PyPrelude', 'PgmState', 'PureState', 'LineTok', 'PgmSrc', 'PgmEquiv', 'SrcWr', 'EquivWr'], 'EquivWr')],
+            ('SrcWr.v', ['PyPrelude', 'PgmState', 'PureState', 'LineTok', 'PgmSrc', 'PgmEquiv', 'SrcWr', 'EquivWr'], 'EquivWr'),
+            ('SrcWn.v', ['PyPrelude', 'PgmState', 'WnState', 'SrcWn', 'EquivWn'], 'EquivWn')],
     'C05': ('SrcTc.v', ['PyPrelude', 'PgmState', 'PureState', 'SrcTc', 'EquivTc'], 'EquivTc'),
     'C06': [('SrcTc.v', ['PyPrelude', 'PgmState', 'PureState', 'SrcTc', 'EquivTc'], 'EquivTc'),
             ('SrcFc.v', ['PyPrelude', 'PgmState', 'PureState', 'LineTok', 'PgmSrc', 'PgmEquiv', 'FcState', 'SrcFc', 'EquivFc'], 'EquivFc'),
